@@ -82,6 +82,9 @@ func c20NewHost(w *cworld, workers int) *c20Host {
 	return &c20Host{mc: mc, cli: cli}
 }
 
+// close stops what the host itself started (nothing for a decorator host)
+func (h *c20Host) close() {}
+
 func (h *c20Host) reconcile(realName string) error {
 	_, err := h.mc.Reconcile(context.Background(), reconcile.Request{NamespacedName: types.NamespacedName{Name: realName}})
 	return err
